@@ -179,3 +179,50 @@ def cursive(tt, lookup_indices):
         if recs:
             out.append((li, bool(lk.LookupFlag & 0x0001), recs))
     return out
+
+
+# ---------------------------------------------------------------- chained contextual positioning (lookup type 8)
+
+def _classes_to_sets(classdef, coverage_glyphs, order):
+    """{class: set(glyphs)} for a ClassDef; class 0 = every glyph (of `order`) the ClassDef does not mention"""
+    cd = dict(classdef.classDefs) if classdef is not None else {}
+    out = {}
+    for g, c in cd.items():
+        out.setdefault(c, set()).add(g)
+    out[0] = set(order) - set(cd)
+    return out
+
+
+def chain_rules(tt, lookup_index):
+    """the rules of a ChainContextPos lookup (formats 1, 2, 3), one dict per rule:
+    {"back": [set, ...] (logical order: the glyph next to the input is LAST), "input": [set, ...], "ahead": [set, ...],
+     "records": [(sequenceIndex, lookupIndex), ...]} - each position as the set of glyphs it accepts"""
+    lk = tt["GPOS"].table.LookupList.Lookup[lookup_index]
+    order = tt.getGlyphOrder()
+    rules = []
+    for typ, st in _subtables(lk):
+        if typ != 8:
+            continue
+        if st.Format == 3:
+            rules.append({"back": [set(c.glyphs) for c in reversed(st.BacktrackCoverage)],
+                          "input": [set(c.glyphs) for c in st.InputCoverage],
+                          "ahead": [set(c.glyphs) for c in st.LookAheadCoverage],
+                          "records": [(r.SequenceIndex, r.LookupListIndex) for r in st.PosLookupRecord]})
+        elif st.Format == 1:
+            for g, rs in zip(st.Coverage.glyphs, st.ChainPosRuleSet):
+                for r in (rs.ChainPosRule if rs is not None else []):
+                    rules.append({"back": [{x} for x in reversed(r.Backtrack)], "input": [{g}] + [{x} for x in r.Input],
+                                  "ahead": [{x} for x in r.LookAhead],
+                                  "records": [(p.SequenceIndex, p.LookupListIndex) for p in r.PosLookupRecord]})
+        elif st.Format == 2:
+            bc = _classes_to_sets(st.BacktrackClassDef, None, order)
+            ic = _classes_to_sets(st.InputClassDef, None, order)
+            ac = _classes_to_sets(st.LookAheadClassDef, None, order)
+            cov = set(st.Coverage.glyphs)
+            for cls, cs in enumerate(st.ChainPosClassSet):
+                for r in (cs.ChainPosClassRule if cs is not None else []):
+                    rules.append({"back": [bc.get(c, set()) for c in reversed(r.Backtrack)],
+                                  "input": [ic.get(cls, set()) & cov] + [ic.get(c, set()) for c in r.Input],
+                                  "ahead": [ac.get(c, set()) for c in r.LookAhead],
+                                  "records": [(p.SequenceIndex, p.LookupListIndex) for p in r.PosLookupRecord]})
+    return rules
